@@ -131,6 +131,13 @@ func main() {
 					addYield(x.Body.Lbrace, "for")
 				case *ast.RangeStmt:
 					addYield(x.Body.Lbrace, "range")
+				case *ast.CommClause:
+					// a send or receive that is the communication of a select case stays as it
+					// is (only its body is instrumented): select already is a non-blocking choice
+					for _, st := range x.Body {
+						walk(st)
+					}
+					return false
 				case *ast.ExprStmt:
 					// x.Lock() / x.RLock() as a statement, in a file that imports "sync": rewritten
 					// into a try-lock loop so that a task waiting for a lock held by a parked task
